@@ -29,7 +29,8 @@ RULE = ("matrix of output scenarios (writer functions with str/Path targets; evo
 ASSUMPTIONS = ["audit events are delivered for every open/rename/remove/truncate issued from Python",
                "the appended --logfile is not an output kind of the statement"]
 # <EOF>: the prompt gets no answer (stdin at end of file); <INT>: Ctrl+C while the question is pending
-ANSWERS = ["y", "n", "", "Y", "yes", " y", "<EOF>", "<INT>"]
+# <ERR>: reading the answer fails (undecodable bytes)
+ANSWERS = ["y", "n", "", "Y", "yes", " y", "<EOF>", "<INT>", "<ERR>"]
 
 
 # ------------------------------------------------------------------ input data
@@ -351,7 +352,8 @@ def k_cell(run, case):
                          "events": [(e[1], os.path.basename(e[2])) for e in rec.events[:12]]})
         label = "%s [existing %s, answer %r, %s]" % (S.name, E, answer, "warnings off" if not confirm_on else "warnings on")
         run.check(rB.exc is None or (answer == "<EOF>" and isinstance(rB.exc, EOFError)) or
-                  (answer == "<INT>" and isinstance(rB.exc, KeyboardInterrupt)), "command does not crash", case,
+                  (answer == "<INT>" and isinstance(rB.exc, KeyboardInterrupt)) or
+                  (answer == "<ERR>" and isinstance(rB.exc, UnicodeDecodeError)), "command does not crash", case,
                   "%s crashed: %r" % (label, rB.exc), key="crash")
         # S5: nothing written in place of / besides the expected outputs
         extra = sorted(set(after) - set(before) - set(OUT))
